@@ -45,6 +45,12 @@ PROPOSED_KNOWN = [
      "what": "constant shift with an untyped float left operand yields an untyped float (Go: untyped int): 1.0 << 3 has default type float64, (1.0<<3)/16 == 0.5"},
     {"kind": "known", "signature": {"fam": "const", "fail": "value-unusable", "opk": "shift", "ka": "u.complex"},
      "what": "constant shift with an untyped complex left operand (0i << 1) yields an integer constant typed untyped complex; using it (var v int64 = c) panics in reflect.Value.Convert inside the compiler"},
+    {"kind": "known", "signature": {"fam": "const", "fail": "value", "xprec": 1, "typed": 1, "xf64": 0},
+     "what": "an untyped constant that float64 can only hold after rounding (1<<53+1) is not rounded when it is implicitly converted to a typed float64/complex128 operand: 9007199254740993 + complex128(1.5i) keeps 54 bits (same cause as float64(9223372036854775807))"},
+    {"kind": "known", "signature": {"fam": "const", "fail": "accepts-invalid", "opk": "intonly", "oc": "int", "typed": 0},
+     "what": "intConst.binaryOp: & | ^ &^ results are not checked against the 512-bit limit ((-1<<511) ^ (1<<511) accepted; gc: constant overflow)"},
+    {"kind": "known", "signature": {"fam": "const", "fail": "crash", "root": "quo", "oc": "complex", "xf64": 0},
+     "what": "complexConst.binaryOp division ignores the overflow error of c*c+d*d on integer parts: 1i / (1<<511) dereferences a nil *big.Int and panics in the host"},
     {"kind": "known", "signature": {"fam": "const", "fail": "accepts-invalid", "root": "cpl", "ka": "u.int"},
      "what": "unary ^ on an untyped integer constant is not checked against the 512-bit limit (^(1<<512-1) accepted; gc: constant bitwise complement overflow)"},
 ]
@@ -123,7 +129,12 @@ ECHO = ("expr", "src", "reflit", "vt", "dt")
 
 
 def case_from_obs(o):
-    return {"id": o["id"], **{k: o[k] for k in ECHO}}
+    return {"id": o["id"], **{k: o[k] for k in ECHO}, "kids": [case_from_obs(k) for k in o["kids"]]}
+
+
+def echoes(o, c):
+    return (all(o[k] == c[k] for k in ECHO) and len(o["kids"]) == len(c["kids"])
+            and all(echoes(a, b) for a, b in zip(o["kids"], c["kids"])))
 
 
 def show(o):
@@ -136,7 +147,8 @@ def same_outcome(a, b):
     """scriggo observation vs oracle observation of the same programs"""
     return (a["builds"] == b["builds"] and a["eq"] == b["eq"] and a["hasv"] == b["hasv"]
             and a["v"] == b["v"] and a["dtobs"] == b["dtobs"]
-            and (a["builds"] != "ok" or (a["chk"] == "ran") == (b["chk"] == "ran")))
+            and (a["builds"] != "ok" or (a["chk"] == "ran") == (b["chk"] == "ran"))
+            and all(same_outcome(x, y) for x, y in zip(a["kids"], b["kids"])))
 
 
 def _mcbig(ctx):
@@ -206,7 +218,7 @@ def run(ctx, replay_case=None):
         raise Infra("driver returned %d observations for %d cases" % (len(allobs), len(cases)))
     for o in allobs:
         c = byid[o["id"]]
-        if any(o[k] != c[k] for k in ECHO):
+        if not echoes(o, c):
             raise Infra("observation %d does not echo its case" % o["id"])
     nontrivial = lambda o: o["builds"] == "builderr" or o["chk"] == "ran"
     ctx.cov.update(evaluations=len(allobs), traces_validated_against_impl=len(allobs),
